@@ -246,6 +246,22 @@ impl Vt {
         if cmd == ".echo" {
             return println!("{rest}");
         }
+        if cmd == ".sig" {
+            // cache key of a query text
+            let sig = vibesql_executor::cache::QuerySignature::from_sql(rest);
+            return println!("SIG {:016x}  {}", sig.hash(), rest);
+        }
+        if cmd == ".extract" {
+            // tables the result cache would watch for this statement
+            return match vibesql_parser::Parser::parse_sql(rest) {
+                Ok(stmt) => {
+                    let mut t: Vec<String> = vibesql_executor::cache::extract_tables_from_statement(&stmt).into_iter().collect();
+                    t.sort();
+                    println!("TABLES {:?}  {}", t, rest)
+                }
+                Err(e) => println!("PARSE-ERR {:?}", e),
+            };
+        }
         println!("> {line}");
         let res = catch_unwind(AssertUnwindSafe(|| self.dot_inner(cmd, rest)));
         match res {
